@@ -229,6 +229,8 @@ def run(ctx):
     deep_runs, deep_want = [], []
     for depth in (3000, 6000) + ((20000,) if thorough else ()):
         comps = [(1, rng.choice([0, 1, B31 - 1, rng.randrange(B31)])) for _ in range(depth)]
+        while len("m/" + "/".join("%d'" % v for _, v in comps)) > 120000:  # one argv string holds at most 128 KiB on Linux
+            comps.pop()
         t = "m/" + "/".join("%d'" % v for _, v in comps)
         key = pyref.bip32_derive(seed, [v | B31 for _, v in comps])
         deep_runs.append(dict(args=["export", "--mnemonic", phrase, "--hd-path=" + t], timeout=300))
